@@ -471,6 +471,13 @@ def startMod (enabled : Bool) (slow : Nat) (polled : List Nat) (pollinterval : N
   { enabled := enabled, slow := slow, polled := polled, pollinterval := pollinterval, interval := pollinterval,
     fast := false, lastMain := 0, lastSlow := 0, lastStart := 0 }
 
+/-- which start values module initialisation (`Module.__init__`, modulebase.py 505-535) enters into `writeDict`: every
+parameter whose value is given explicitly — in the configuration, or as `value=` in its definition — (`given`, in parameter
+order; every parameter has a write wrapper, so `hasattr(self, 'write_' + pname)` always holds), in parameter order -/
+def givenIdx : Nat → List Bool → List Nat
+  | _, [] => []
+  | i, g :: gs => (if g then [i] else []) ++ givenIdx (i + 1) gs
+
 /-- the state in which the thread body begins: nothing read or called yet, the event clear, `to_poll = ()`;
 the ghost `refreshed` starts as the time stamps the parameters already carry; `pending` = what module initialisation
 has put into each `writeDict` -/
